@@ -334,7 +334,7 @@ func runSolver(sp solverSpec, text string, timeoutS int, seed int, wall time.Dur
 // solveAll discharges every obligation of the script: one incremental batch on
 // the first solver, then individual re-tries on the other solvers for whatever
 // is not `unsat`.
-func (s *Script) solveAll(timeoutS int, seed int, allSolvers bool) {
+func (s *Script) solveAll(timeoutS int, seed int, allSolvers bool) (solverErr string) {
 	if len(s.Obs) == 0 {
 		return
 	}
@@ -344,6 +344,9 @@ func (s *Script) solveAll(timeoutS int, seed int, allSolvers bool) {
 	cur := ""
 	for _, ln := range strings.Split(out, "\n") {
 		ln = strings.TrimSpace(ln)
+		if strings.HasPrefix(ln, "(error") && solverErr == "" {
+			solverErr = ln
+		}
 		if strings.HasPrefix(ln, "@@ ") || strings.HasPrefix(ln, "\"@@ ") {
 			cur = strings.Trim(strings.TrimPrefix(strings.Trim(ln, "\""), "@@ "), "\"")
 			continue
@@ -375,6 +378,7 @@ func (s *Script) solveAll(timeoutS int, seed int, allSolvers bool) {
 		}()
 	}
 	wg.Wait()
+	return
 }
 
 func firstLine(s string) string {
